@@ -192,9 +192,12 @@ def intended_loop(kind, x):
             if not (w[0][0] == "code" and jumps.base(w[0][1]) == "condition" and t == 1):
                 bad.append("expected `<condition> while_loop`")
         else:
-            cond = t - 3
-            if not (cond >= 0 and ins_at(w, cond, "load_fast") and ins_at(w, cond + 1, "load_fast") and ins_at(w, cond + 2, "bin_op")):
-                bad.append("expected `load_fast load_fast bin_op while_loop` as the loop test")
+            # the test starts right after the initialisation (the last store_fast before the loop instruction): the back edge re-runs the
+            # test, never the initialisation.  What the test consists of is the skeleton rule's business.
+            inits = [k for k in range(t) if ins_at(w, k, "store_fast")]
+            cond = inits[-1] + 1 if inits else None
+            if cond is None:
+                bad.append("no counter initialisation (store_fast) before the loop test")
         want(bad, "the false edge of the loop test", target_of(pos, w, t), exit_, w)
         want(bad, "the back edge", target_of(pos, w, b), cond, w)
         a = w[b][3] if len(w[b]) > 3 else ()
@@ -234,6 +237,8 @@ def from_skeleton(inclusive, step, coll, names):
 
     def lit(x, ai=0):
         a = x[3] if len(x) > 3 else ()
+        if len(a) > ai and isinstance(a[ai], Int) and a[ai].ty not in ("bool", "char"):
+            return str(a[ai].v)          # instruction!(make_int 1): the number's text is its decimal form
         return a[ai].s if len(a) > ai and isinstance(a[ai], Str) else None
 
     def f(w):
@@ -596,6 +601,50 @@ def interpreter_loop(F, rep):
         rep.ob(P + ".loop", "Function::run on %s: %s, opens %d / closes %s frame(s)" % (name, "then steps to the next instruction" if steps else "jumps without the +1 step",
                                                                                          adds, "n" if name == "GotoPopScope" else pops),
                "violated" if problems else "ok", "; ".join(problems), run_.span, fn=run_.path, key=P + ".loop|%s" % name)
+    # --- `done` really closes a frame: if the pop in the PopScope arm is conditional, the condition is the book-keeping vector of open block
+    #     scopes, which grows with every frame opened here and shrinks nowhere else (so it is non-empty whenever a block frame is open)
+    if "PopScope" in arm:
+        reaches = {nm: {b for b in run_.reachable(arm[nm], removed_blocks={bi}) if not run_.blocks[b].get("cleanup")} for nm in arm}
+        common = set.intersection(*reaches.values()) if reaches else set()
+        own = {nm: r - common for nm, r in reaches.items()}
+        pops_ = [c for c in run_.calls() if c.bb in own["PopScope"] and c.matches(POP)]
+        problems = []
+        detail = ""
+        if pops_:
+            pc = pops_[0]
+            # is the pop unconditional within the arm?  (every path from the arm entry to the shared tail passes it)
+            tail_entry = [b for b in common if any(p in own["PopScope"] or p == arm["PopScope"] for p in run_.preds(b))]
+            uncond = all(b not in run_.reachable(arm["PopScope"], removed_blocks={bi, pc.bb}) for b in tail_entry) if tail_entry else False
+            if uncond:
+                detail = "pop_frame is unconditional in the PopScope arm"
+            else:
+                vecs = [l for l, ty in enumerate(run_.locals) if ty.replace(" ", "").startswith("alloc::vec::Vec<bytecode::context::SpecialScope")]
+                refs = {}
+                for b, si, d, rv, st in run_.assigns():
+                    if "ref" in rv and rv["ref"].get("l") in vecs and not rv["ref"].get("p") and rv.get("mut"):
+                        refs[d["l"]] = rv["ref"]["l"]
+                uses = []
+                for c in run_.calls():
+                    if c.args and op_local(c.args[0]) in refs and not run_.blocks[c.bb].get("cleanup"):
+                        uses.append(c)
+                shrink = [c for c in uses if not c.callee().endswith("::push") and not c.callee().endswith("::len") and not c.callee().endswith("::is_empty")]
+                grow = [c for c in uses if c.callee().endswith("::push")]
+                guard_pops = [c for c in shrink if c.callee().endswith("::pop") and c.bb in own["PopScope"]]
+                stray = [c for c in shrink if c not in guard_pops]
+                if not vecs or not guard_pops:
+                    problems.append("pop_frame in the PopScope arm is conditional on something other than the scope book-keeping vector")
+                if stray:
+                    problems.append("the scope book-keeping vector also shrinks outside the PopScope arm (%s): `done` can then find it empty while a frame is open and leave the frame open"
+                                    % ", ".join("%s at %s" % (mir.short(c.callee()), c.span) for c in stray[:3]))
+                for nm in ("PushScope", "GotoPushScope"):
+                    if nm in own and any(c.bb in own[nm] and c.matches(ADD) for c in run_.calls()) and not any(c.bb in own[nm] for c in grow):
+                        problems.append("the %s arm opens a frame without recording it in the book-keeping vector" % nm)
+                detail = "%d push / %d pop / %d other mutation(s) of the book-keeping vector" % (len(grow), len(guard_pops), len(stray))
+        else:
+            problems.append("no pop_frame in the PopScope arm")
+        n += 1
+        rep.ob(P + ".loop", "`done` closes a frame whenever one is open (the pop is unconditional, or guarded only by a vector that records every frame opened and shrinks nowhere else)",
+               "violated" if problems else "ok", "; ".join(problems) or detail, run_.span, fn=run_.path, key=P + ".loop|PopScope-effective")
     if "ReturnValue" in arm:
         reach = run_.reachable(arm["ReturnValue"], removed_blocks={bi})
         reach = {b for b in reach if not run_.blocks[b].get("cleanup")}
@@ -610,7 +659,7 @@ def interpreter_loop(F, rep):
         n += 1
         rep.ob(P + ".loop", "Function::run on ReturnValue: drops the function's block frames and returns", "violated" if problems else "ok", "; ".join(problems),
                run_.span, fn=run_.path, key=P + ".loop|ReturnValue")
-    rep.floor(P + ".loop exit-state arms judged", n, 7)
+    rep.floor(P + ".loop exit-state arms judged", n, 8)
     # the goto closure adds the offset to the pointer of the jumping instruction, nothing else
     for g in goto_cl:
         consts = []
